@@ -36,10 +36,10 @@ RULE = (
     "Simulation; all sequences up to the length bound are enumerated by the choice explorer, each exactly once. "
     "non-trivial: mq = a message was redelivered, dead-lettered, or answered (ack/reject) while no longer in flight; "
     "topic = publishes overlapped or followed an unsubscribe / re-subscribe; eventlog = a retention sweep expired "
-    "records or two appends overlapped; group = a membership change arrived while another rebalance was pending or "
-    "a member re-joined; commit = a commit lower than an earlier one was issued; outbox = a poll cycle relayed >= 2 "
-    "entries or entries were written during a relay; idem = a duplicate key arrived; stream = a window held >= 2 "
-    "records.  states = distinct observation digests (what consumers received, with times, plus public counters)."
+    "records or two appends overlapped; group = a membership change arrived while another rebalance was pending, "
+    "a member re-joined, or >= 2 members were in the group; commit = a commit lower than an earlier one of that "
+    "member was issued; outbox = an entry was written while earlier entries were still pending; idem = a key was "
+    "used twice; stream = a window held >= 2 records.  states = distinct observation digests (what consumers received, with times, plus public counters)."
 )
 ASSUMPTIONS = [
     "1 tick = 1 s; delivery latency 0 or 0.25 s, redelivery delay 1.5 s, so nothing the library schedules lands on "
@@ -176,4 +176,6 @@ def replay(data):
         return 0
     print(f"reproduced: {w.viol[0]}")
     print(f"  {w.viol[1]}")
-    return 1 if w.viol[0] == data.get("fingerprint") or data.get("fingerprint") is None else 1
+    if data.get("fingerprint") not in (None, w.viol[0]):
+        print(f"  (recorded fingerprint was {data.get('fingerprint')})")
+    return 1
